@@ -1,19 +1,223 @@
-//! C10 (stub, to be filled in)
+//! C10 - responses are framed exactly: `;` between units, `,` between data, one final NL.
+//! World: query handlers are simulator actors writing scheduled response units (0-2 header
+//! parts, 1-5 data of mixed types) interleaved with non-query units, every message ending,
+//! both shipped formatters; the output buffer is compared with the framing model.
+
+use crate::exec::{SendObs, World};
+use crate::gen::*;
+use crate::model::*;
+use crate::msg::*;
+use crate::props::structural::*;
 use crate::props::*;
+use crate::rng::{mix, Rng};
 use crate::runner::{Finding, Prop, Tier};
 use crate::stats::Stats;
+use crate::tree::gen_tree;
 use crate::types::*;
 
 pub struct C10;
 
 impl Prop for C10 {
-    fn id(&self) -> &'static str { "C10" }
-    fn level(&self) -> &'static str { "exploration" }
-    fn rule(&self) -> &'static str { "" }
-    fn assumptions(&self) -> Vec<String> { vec![] }
-    fn runs(&self, _tier: Tier) -> u64 { 0 }
-    fn gen(&self, seed: u64, run: u64, _tier: Tier) -> Trace {
-        base_trace("C10", seed, run, "", Config { queue: QueueCfg::Vec, controllers: 1, tree: TreeDesc::default() })
+    fn id(&self) -> &'static str {
+        "C10"
     }
-    fn check(&self, _trace: &Trace, _stats: &mut Stats) -> Vec<Finding> { vec![] }
+    fn level(&self) -> &'static str {
+        "exploration"
+    }
+    fn rule(&self) -> &'static str {
+        "one run = one random tree (optionally with the real mandated commands) and 1-5 successful messages of 1-10 units in any interleaving of queries and non-queries; query handlers write 0-2 response-header parts and 1-5 data of 15 kinds; the message ends by end of input, NL, CR NL, white space, white space + NL, ';', '; ' or ';' NL; formatter is Vec<u8> or a large ArrayVec<u8,N>; the buffer after Ok is compared byte-exactly with join(units,';')+NL built from stand-alone formatted data. distinct_nontrivial = distinct (query/event pattern of the message, ending, formatter kind, header parts of first query, data count of first query) tuples"
+    }
+    fn assumptions(&self) -> Vec<String> {
+        vec![
+            "the response buffer is handed in empty, as every example does".into(),
+            "every query writes at least one datum (a query producing no output is not covered by the statement)".into(),
+            "the text of each datum is whatever the library formats for it stand-alone (value fidelity is C09, n/a)".into(),
+        ]
+    }
+    fn runs(&self, tier: Tier) -> u64 {
+        match tier {
+            Tier::Quick => 40_000,
+            Tier::Thorough => 1_500_000,
+            Tier::Tiny => 40,
+        }
+    }
+    fn required_probes(&self) -> Vec<String> {
+        let v: Vec<&str> = vec![
+            "event_query_event",
+            "query_first",
+            "query_last",
+            "trailing_semicolon_after_query",
+            "trailing_semicolon_after_event",
+            "single_unit_query",
+            "ten_units",
+            "header_and_several_data",
+            "no_query_message",
+            "array_formatter",
+            "mandated_query_in_message",
+        ];
+        v.into_iter().map(String::from).collect()
+    }
+
+    fn gen(&self, seed: u64, run: u64, _tier: Tier) -> Trace {
+        let mut rng = Rng::new(mix(seed, "C10", run));
+        let mut trng = Rng::new(mix(seed, "C10-tree", run / 64));
+        let mandated = trng.chance(1, 3);
+        let tree = gen_tree(&mut trng, mandated, 3, 3, 1);
+        let cfg = Config {
+            queue: QueueCfg::Vec,
+            controllers: 1,
+            tree,
+        };
+        let mut t = base_trace("C10", seed, run, "framing", cfg.clone());
+        let tc = TreeCtx::new(&cfg.tree);
+        if tc.sim_leaves.is_empty() {
+            return t;
+        }
+        let nmsg = rng.urange(1, 5);
+        let mut uniq = 0u32;
+        let qpct = *rng.pick(&[20u64, 50, 80, 100]);
+        for _ in 0..nmsg {
+            let k = *rng.pick(&[1usize, 1, 2, 3, 5, 10]);
+            let k = if k == 10 && rng.chance(1, 2) { 10 } else { rng.urange(1, k) };
+            let mut units = Vec::new();
+            let mut level: Vec<usize> = Vec::new();
+            for i in 0..k {
+                let u = if mandated && rng.chance(1, 6) {
+                    let c = *rng.pick(&[Contrib::Idn, Contrib::Opc, Contrib::Ese, Contrib::SystVersion, Contrib::SystErrCount, Contrib::Wai, Contrib::Rst]);
+                    let query = !matches!(c, Contrib::Wai | Contrib::Rst);
+                    contrib_unit(&mut rng, &tc, c, query, vec![], &level, i == 0)
+                } else {
+                    let leaf = pick_sim_leaf(&mut rng, &tc).unwrap().clone();
+                    let o = UnitOpts {
+                        max_params: 2,
+                        allow_indef_last: false,
+                        query_pct: qpct,
+                        max_data: 5,
+                        fancy_ws: true,
+                    };
+                    let mut u = gen_app_unit(&mut rng, &tc, &leaf, &level, i == 0, &mut uniq, &o);
+                    // successful: consume exactly what is there
+                    for p in u.plan.pulls.iter_mut() {
+                        p.req = rng.chance(1, 2);
+                    }
+                    u
+                };
+                let mut u = u;
+                if i > 0 && rng.chance(1, 4) {
+                    u.lead = gen_ws(&mut rng, false);
+                }
+                if let Some(l) = level_after(&tc, &level, i == 0, u.colon, &u.path) {
+                    level = l;
+                }
+                units.push(u);
+            }
+            let end = *rng.pick(&["", "", "\n", "\r\n", " ", " \n", ";", ";", ";\n", "; "]);
+            let fmt = if rng.chance(1, 3) {
+                FmtCfg::Array {
+                    cap: *rng.pick(&[1024usize, 4096]),
+                }
+            } else {
+                FmtCfg::Vec
+            };
+            t.steps.push(Step::Send(SendStep {
+                ctl: 0,
+                fmt,
+                msg: Msg { units, end: B::from(end) },
+                corrupt: vec![],
+            }));
+        }
+        t
+    }
+
+    fn check(&self, trace: &Trace, stats: &mut Stats) -> Vec<Finding> {
+        struct H;
+        impl StepHandler for H {
+            fn on_send(&mut self, world: &mut World, before: &ModelState, i: usize, s: &SendStep, o: &SendObs, stats: &mut Stats, out: &mut Vec<Finding>) {
+                let pred = predict(&world.root, before, s, Reading::Condition);
+                if !pred.structural {
+                    return;
+                }
+                if pred.result.is_err() {
+                    stats.bump("predicted_failure_skipped");
+                    return;
+                }
+                let pattern: Vec<u8> = s.msg.units.iter().map(|u| u.query as u8).collect();
+                let k = pattern.len();
+                let trailing_semi = s.msg.end.as_slice().starts_with(b";");
+                let fq = s.msg.units.iter().find(|u| u.query);
+                let mut key = pattern.clone();
+                key.push(0xff);
+                key.extend_from_slice(s.msg.end.as_slice());
+                key.push(matches!(s.fmt, FmtCfg::Array { .. }) as u8);
+                if let Some(u) = fq {
+                    key.push(u.plan.hdr.len() as u8);
+                    key.push(u.plan.data.len() as u8);
+                }
+                stats.state(&key);
+                if pattern.windows(3).any(|w| w == [0, 1, 0]) {
+                    stats.probe("event_query_event");
+                }
+                if pattern[0] == 1 && k > 1 {
+                    stats.probe("query_first");
+                }
+                if pattern[k - 1] == 1 && k > 1 {
+                    stats.probe("query_last");
+                }
+                if trailing_semi {
+                    stats.probe(if pattern[k - 1] == 1 {
+                        "trailing_semicolon_after_query"
+                    } else {
+                        "trailing_semicolon_after_event"
+                    });
+                }
+                if k == 1 && pattern[0] == 1 {
+                    stats.probe("single_unit_query");
+                }
+                if k == 10 {
+                    stats.probe("ten_units");
+                }
+                if s.msg.units.iter().any(|u| u.query && !u.plan.hdr.is_empty() && u.plan.data.len() >= 3) {
+                    stats.probe("header_and_several_data");
+                }
+                if !pattern.contains(&1) {
+                    stats.probe("no_query_message");
+                }
+                if matches!(s.fmt, FmtCfg::Array { .. }) {
+                    stats.probe("array_formatter");
+                }
+                if pred.executed.iter().any(|(_, _, q)| *q) {
+                    stats.probe("mandated_query_in_message");
+                }
+                if let Err(e) = &o.result {
+                    // a well-formed, fully consumed message must succeed for framing to be judged;
+                    // failure here is another property's business
+                    stats.bump("unexpected_failure_skipped");
+                    let _ = e;
+                    return;
+                }
+                if let Some(df) = cmp_out(&pred, o) {
+                    out.push(Finding::new(
+                        "C10.framing",
+                        df.sig,
+                        i,
+                        format!("message {} ({:?}): {}", describe_msg(s), s.fmt, df.detail),
+                    ));
+                }
+            }
+        }
+        let f = drive(trace, stats, &mut H);
+        if trace.run < 3 && stats.samples.is_empty() {
+            let msgs: Vec<String> = trace
+                .steps
+                .iter()
+                .take(4)
+                .filter_map(|s| match s {
+                    Step::Send(x) => Some(describe_msg(x)),
+                    _ => None,
+                })
+                .collect();
+            stats.samples.push(serde_json::to_string(&msgs).unwrap());
+        }
+        f
+    }
 }
